@@ -62,7 +62,10 @@ def default_case(**kw):
         "source": None,        # None: FileSource over the in-memory samples.  Otherwise a BUFFERED source opened by the
                                # real BufferedIOBaseSource.open() on a WAV byte stream whose producer stalls:
                                # {"kind": "file" | "pipe" (not seekable) | "reader" (asyncio.StreamReader),
-                               #  "stalls": [[pcm byte offset, virtual seconds], ...]}
+                               #  "stalls": [[pcm byte offset, virtual seconds], ...],
+                               #  "max_read": n ("reader" only: the producer feeds at most n bytes at a time, so the
+                               #  StreamReader answers short reads; 1 = byte by byte.  File objects always answer
+                               #  full reads, as io.BufferedIOBase promises for non-interactive streams)}
         "compact": False,      # True: too many datagrams for a case literal - compared with the model through the
                                # header summary of coq/C16/Long.v (payloads are checked in Python only)
         "boundary": False,     # True: probe of a limit outside the property's domain (model tie only, no oracle)
@@ -111,19 +114,32 @@ class TLoop(vloop.VLoop):
         super()._run_once()
 
 
+_RELEASE = []      # callables that let go of every worker thread still waiting for a test producer
+
+
 def tloop_run(coro_factory, *a):
     loop = TLoop()
+    # never hang: a run that makes no progress for this long (real time) is stopped and reported as a harness failure
+    watchdog = threading.Timer(120, lambda: loop.call_soon_threadsafe(loop.stop))
+    watchdog.daemon = True
+    watchdog.start()
     try:
         asyncio.set_event_loop(loop)
         return loop.run_until_complete(coro_factory(*a))
     finally:
+        watchdog.cancel()
         try:
+            while _RELEASE:
+                try:
+                    _RELEASE.pop()()
+                except Exception:
+                    pass
             pending = [t for t in asyncio.all_tasks(loop) if not t.done()]
             for t in pending:
                 t.cancel()
             if pending:
-                loop.run_until_complete(asyncio.gather(*pending, return_exceptions=True))
-            loop.run_until_complete(loop.shutdown_default_executor())
+                loop.run_until_complete(asyncio.wait_for(asyncio.gather(*pending, return_exceptions=True), 30))
+            loop.run_until_complete(loop.shutdown_default_executor(10))
         except Exception:
             pass
         asyncio.set_event_loop(None)
@@ -136,11 +152,19 @@ class StallReader(io.BytesIO):
     armed = False
     can_seek = True
 
-    def setup(self, loop, stalls, can_seek):
+    def setup(self, loop, stalls, can_seek, max_read=None):
         self.loop = loop
         self.stalls = sorted(stalls)
         self.can_seek = can_seek
+        self.max_read = max_read
         self.stalled = []
+        self.waiting = []
+
+    def release(self):
+        """End of the run: never leave a worker thread waiting."""
+        self.armed = False
+        for ev in list(self.waiting):
+            ev.set()
 
     def seekable(self):
         return self.can_seek
@@ -160,8 +184,11 @@ class StallReader(io.BytesIO):
                 loop._blocked += 1
                 loop.call_later(secs, fire)
             self.stalled.append([off, self.tell()])
+            self.waiting.append(ev)
             loop.call_soon_threadsafe(arm)
             ev.wait(60)
+        if self.armed and self.max_read and (size is None or size < 0 or size > self.max_read):
+            size = self.max_read          # a short read, as pipes and sockets give
         return super().read(size)
 
 
@@ -177,12 +204,12 @@ class FeedReader(asyncio.StreamReader):
             loop._blocked -= 1
 
 
-async def feed(reader, data, stalls, log):
+async def feed(reader, data, stalls, log, step=None):
     """Producer of a StreamReader: bursts of data with pauses (virtual time) at the given offsets."""
     pos = 0
+    step = step or 4096
     for off, secs in sorted(stalls) + [[len(data), 0]]:
         off = min(max(off, pos), len(data))
-        step = 4096
         while pos < off:
             reader.feed_data(data[pos:min(off, pos + step)])
             pos = min(off, pos + step)
@@ -316,10 +343,12 @@ async def drive(case, prepared=None, shared_ctx=None):
         stalls = [[44 + o, t] for o, t in spec["stalls"]]
         if spec["kind"] == "reader":
             rd = FeedReader()
+            _RELEASE.append(lambda: rd.at_eof() or rd.feed_eof())
             stall_log = []
-            feeder = asyncio.ensure_future(feed(rd, data, stalls, stall_log))
+            feeder = asyncio.ensure_future(feed(rd, data, stalls, stall_log, spec.get("max_read")))
         else:
             rd = StallReader(data)
+            _RELEASE.append(rd.release)
             rd.setup(loop, stalls, spec["kind"] == "file")
             stall_log = rd.stalled
         fsrc = await BufferedIOBaseSource.open(rd, case["sample_rate"], ch, ss)
@@ -437,9 +466,17 @@ async def drive(case, prepared=None, shared_ctx=None):
     finally:
         sc.monotonic, sc.monotonic_ns, sc.Statistics = saved
         if case.get("source"):
-            await fsrc.close()
+            # whatever happened: let every worker thread that still waits for the producer go
             if feeder is not None:
                 feeder.cancel()
+                if not rd.at_eof():
+                    rd.feed_eof()
+            else:
+                rd.release()
+            try:
+                await asyncio.wait_for(fsrc.close(), 30)
+            except Exception:
+                pass
     do_requests(None)
     bl = client._packet_backlog
     keys = list(bl)
@@ -495,6 +532,20 @@ def run_case(case):
 
 
 # --------------------------------------------------------------------------- oracle
+
+def frames_lost(stream, audio):
+    """Number of audio bytes missing when the non-zero bytes sent are a proper subsequence of the audio's."""
+    got = bytes(b for b in stream if b)
+    want = bytes(b for b in audio if b)
+    if len(got) >= len(want):
+        return 0
+    j = 0
+    for b in got:
+        j = want.find(bytes([b]), j) + 1
+        if j == 0:
+            return 0
+    return len(want) - len(got)
+
 
 def describe_damage(payloads, audio, ps, nd):
     """The data packets do not carry the audio as full packets in order: say how (stable key per kind)."""
@@ -619,7 +670,17 @@ def oracle(case, ob):
             if stream != full:
                 nd = -(-len(src) // ps)
                 if stream[:nd * ps] != full[:nd * ps]:
-                    errs.append(describe_damage(payloads, swap16(src) if len(src) % 2 == 0 else b"", ps, nd))
+                    key, text = describe_damage(payloads, swap16(src) if len(src) % 2 == 0 else b"", ps, nd)
+                    kind = (case.get("source") or {}).get("kind")
+                    if key == "C16:payload:not-conserved" and kind == "reader" and len(src) % 2 == 0:
+                        lost = frames_lost(swap16(stream), src)     # compare before the 16-bit swap
+                        if lost:
+                            key = "C16:streamreader-source:frames-lost"
+                            text = ("asyncio.StreamReader source delivering at most %s bytes at a time, stalls %s: the "
+                                    "datagrams carry the audio with %d bytes missing (incomplete frames at the end of short "
+                                    "reads are dropped by the decoder); " % (
+                                        case["source"].get("max_read", 4096), case["source"]["stalls"], lost)) + text
+                    errs.append((key, text))
                 else:
                     errs.append(("C16:payload:silence",
                                  "after the audio %d silence packets were sent, expected %d (latency %d frames)" % (
@@ -1034,7 +1095,10 @@ def gen_cases(ctx):
     bformats = [(1, 1), (1, 2), (2, 2), (1, 1), (2, 1), (1, 4), (1, 1), (2, 4)]
     nL = 0
     for kind in ("file", "pipe", "reader"):
-        plans = [("boundary", 1), ("middle", 1), ("twice", 2), ("none", 0)]
+        plans = [("boundary", 1), ("middle", 1), ("twice", 2), ("none", 0), ("before-eof", 1), ("at-eof", 1),
+                 ("final-packet", 1), ("slow", 0)]
+        if kind == "reader":
+            plans += [("bursts-1", 0), ("bursts-7", 1), ("bursts-1000", 1)]
         if ctx.thorough:
             plans = plans * 4
         for what, nst in plans:
@@ -1042,18 +1106,30 @@ def gen_cases(ctx):
             nL += 1
             fs = ch * ss
             ps = FPP * fs
-            npk = rng.randrange(90, 200)
-            nfr = npk * FPP + 2 * rng.randrange(0, 176)
-            stalls = []
+            npk = rng.randrange(90, 200) if not what.startswith("bursts-1") or what == "bursts-1000" else rng.randrange(4, 9)
+            nfr = npk * FPP + 2 * rng.randrange(1, 176)
+            total = nfr * fs
+            spec = {"kind": kind, "stalls": []}
             at = 0
             for j in range(nst):
-                at = rng.randrange(at + 20, at + 20 + (npk - 30) // max(nst, 1))
+                at = rng.randrange(at + 2, max(at + 3, at + 2 + (npk - 3) // max(nst, 1)))
                 off = at * ps + (ps // 2 if what == "middle" or (what == "twice" and j) else 0)
-                stalls.append([off, rng.choice([1.0, 1.5, 3.0])])
+                if what == "before-eof":
+                    off = total - rng.choice([1, 2, fs, 3 * fs])
+                elif what == "at-eof":
+                    off = total
+                elif what == "final-packet":
+                    off = total - total % ps
+                spec["stalls"].append([off, rng.choice([1.0, 1.5, 3.0])])
+            if what == "slow":
+                # a slow producer: a short pause every few kilobytes, all the way through
+                spec["stalls"] = [[o, 0.05] for o in range(3000, total, rng.choice([3000, 5000, 8000]))]
+            if what.startswith("bursts-"):
+                spec["max_read"] = int(what.split("-")[1])
             cases.append(("stalling-source", default_case(
                 channels=ch, ssize=ss, nframes=nfr, latency=rng.choice([352, 704]), seq0=rnd_seq0(),
                 start_ts=rng.randrange(1 << 33), pa=rng.randrange(1, 250), pb=rng.randrange(251),
-                proto=rng.choice(["v1", "v2", "v2cipher"]), source={"kind": kind, "stalls": stalls})))
+                proto=rng.choice(["v1", "v2", "v2cipher"]), source=spec)))
     # G. more than 1000 packets: the backlog evicts, requests for evicted and retained packets
     for extra in ([7] if not ctx.thorough else [0, 1, 7, 300, 1500]):
         nfr = (1000 + extra) * FPP - 5
@@ -1166,7 +1242,9 @@ def run(ctx):
         ctx.count("proto:" + case.get("proto", "v1"))
         ctx.count("streams-on-context:%d" % len(history))
         if case.get("source"):
-            ctx.count("source:%s:%d-stalls" % (case["source"]["kind"], len(case["source"]["stalls"])))
+            ctx.count("source:%s:%s" % (case["source"]["kind"],
+                                        "bursts" if case["source"].get("max_read") else
+                                        "%d-stalls" % min(len(case["source"]["stalls"]), 3)))
         for idx, (sub, ob) in enumerate(history):
             ctx.count("outcome:" + ob["outcome"])
             ctx.count("compensated" if any(b >= FPP for b in ob["behind"]) else "on-time")
